@@ -76,7 +76,7 @@ func gen(seed uint64, tier string) []*rtwire.Hist {
 		addQueries(r, h, 12)
 		hs = append(hs, h)
 	}
-	n := 300
+	n := 500
 	if tier == "thorough" {
 		n = 6000
 	}
